@@ -177,9 +177,15 @@ func (m *Member) intersectedView(topic topic, topicHex string, tpv *topicPeerVie
 
 	views := make(views)
 
+	// Our own view is made of exactly the peers whose announced views are compared below:
+	// both are collected in the same pass over the peer table, so a peer whose first message
+	// is handled concurrently cannot enter our view without its view having been compared.
+	myView := intSlice{m.ID}
+
 	memberToView := tpv.memberToView
-	memberToView.Range(func(_, v interface{}) bool {
+	memberToView.Range(func(k, v interface{}) bool {
 		members = v.([]uint16)
+		myView = append(myView, k.(uint16))
 		views[view{
 			content: fmt.Sprintf("%v", members),
 			size:    len(members),
@@ -189,7 +195,7 @@ func (m *Member) intersectedView(topic topic, topicHex string, tpv *topicPeerVie
 
 	verifYield(m.ID, "intersect")
 
-	myView := m.myMemberViewSorted(topic)
+	sortIntSlice(myView)
 	views[view{
 		size:    len(myView),
 		content: fmt.Sprintf("%v", myView),
